@@ -27,7 +27,7 @@ Lemma frag_training_start_nt b nt : cb_training_start_nt nt = b_nt (base_ts nt b
 Proof. frag. Qed.
 
 Lemma frag_cblist_combine r acc : cblist_combine r acc = (r && acc)%bool.
-Proof. unfold cblist_combine. destruct r, acc; reflexivity. Qed.
+Proof. reflexivity. Qed.   (* by computation: the child's result must stay the LEFT operand (both are evaluated; `and` short-circuits on the left) *)
 
 Lemma frag_checkpoint_cond c f : checkpoint_cond c f = checkpoint_fires c f.
 Proof. frag. Qed.
@@ -39,7 +39,7 @@ Lemma frag_eval_better m b : eval_better m b = better m (Some b).
 Proof. frag. Qed.
 
 Lemma frag_eval_after_combine a r : eval_after_combine a r = (if a then r else false).
-Proof. unfold eval_after_combine. destruct a, r; reflexivity. Qed.
+Proof. reflexivity. Qed.   (* by computation: continue_training must stay the LEFT operand (the after-eval callback is skipped when it is False) *)
 
 Lemma frag_everyn_cond nt last n : everyn_cond nt last n = everyn_fires nt last n.
 Proof. frag. Qed.
@@ -78,7 +78,7 @@ Proof. unfold rthresh_continue, lt_thr. lia. Qed.
 
 (* the regenerated decision block of StopTrainingOnNoModelImprovement is the model's step (finite best values) *)
 Lemma frag_noimp nt b mx me v lbv ni :
-  let '(cont, ni', lb') := noimp_block (b_calls b + 1) me v lbv ni mx in
+  let '(cont, ni', lb') := noimp_block true (b_calls b + 1) me v lbv ni mx in
   dispatchp (Some v) (Step nt) (NoImp b mx me (Some lbv) ni) = (NoImp (base_step nt b) mx me (Some lb') ni', cont).
 Proof.
   unfold noimp_block. cbn [dispatchp base_step b_calls gt_opt].
